@@ -24,6 +24,12 @@ Proof. exact clean_ok_unique. Qed.
 Print Assumptions c14_clean_spec_determines.
 
 (* ---------------- RandomizeTypes ---------------- *)
+(* Tie, note on size: besides the cases judged by the extracted model and [renumber_ok], the harness
+   runs random mode on topologies with 20000-40000 types (thorough: 200000), where collisions of
+   the REDRAWN id occur; those are too large for the association-list model (quadratic), so for
+   that scenario the relation (type count, resolved definition of every component, no two old ids
+   on one new id) is computed by the Go harness - trusted glue - and only judged in Gallina
+   (case c14big, tag c14-renumber-big). *)
 (* what [renumber_ok] says, as propositions about the resolver of C13 *)
 Theorem c14_renumber_ok_meaning : forall seqm t t',
   renumber_ok seqm t t' = true ->
